@@ -543,6 +543,20 @@ class Run:
                 self.do_started(tid, op[1], ctx)
             elif kind == "hold":
                 await self.hold_native_requests(tid, op[1])
+            elif kind == "scp":
+                # the yield that operations which must not be interrupted any more use
+                # (uncontended acquire, immediately completing stream operation, ...):
+                # whatever gets cancelled while the task is suspended in it, it returns
+                from anyio.lowlevel import cancel_shielded_checkpoint
+
+                for _ in range(op[1]):
+                    self.window("shielded_checkpoint")
+                    try:
+                        await cancel_shielded_checkpoint()
+                    except asyncio.CancelledError:
+                        self.V("C04", "interrupted-inside-cancel_shielded_checkpoint",
+                               {"tid": tid, "chain": self.chain_of(self.sh.top(tid))})  # fmt: skip
+                        raise
             elif kind == "await_handle":
                 await self.await_handle(tid, op[1], op[2])
             else:
